@@ -42,6 +42,10 @@ Definition v_eq := Eval vm_compute in b "=".
 
 (* the text String() prints for an expression ("" where the printer model has none: excluded by wf) *)
 Definition printed (e : node) : bstr := match print_node e with Some s => s | None => [] end.
+(* the printed text of e does not start with "-".  Demanded of the list expression of {for $x in e}: behind the identifier
+   item "in", which ends a term, the scanner reads a leading "-" as the BINARY minus (lexNegative looks at the last item
+   sent), so ForNode.String() of {for $x in (-$a)} = "{for $x in -$a}" is not source syntax (W4, notes/astprint-reparse.md) *)
+Definition c17_no_lead_minus (e : node) : Prop := match printed e with 45 :: _ => False | _ => True end.
 (* "..." as CallNode.String writes an attribute value: the text between two double quotes, NOT escaped *)
 Definition dq (s : bstr) : bstr := 34 :: s ++ [34].
 (* name="value" inside a tag *)
@@ -286,7 +290,7 @@ Fixpoint wf_cmd (m : bool) (n : node) : Prop :=
         end in
       m = false /\ go true conds
   | NFor _ _ lst x ie =>
-      m = false /\ wf_expr lst /\ wf_body x /\ match ie with Some y => wf_body y | None => True end
+      m = false /\ (wf_expr lst /\ c17_no_lead_minus lst) /\ wf_body x /\ match ie with Some y => wf_body y | None => True end
   | NSwitch _ v cases =>
       let fix go (l : list node) : Prop :=
         match l with
